@@ -1,4 +1,5 @@
 """C11 TDD three-valued logic"""
+import ecof
 import eeval
 import eshort
 import ecache
@@ -54,4 +55,12 @@ def run(ctx):
                 "yield their value), plus the initial call and the multi-threaded delegation.")
     n = eeval.run(ctx, F, only=("tdd",))
     ctx.floor("E-EVAL", "interpreted eval situations", n, 15)
+    ctx.explain("E-TABLE.cof: DiagramRules::cofactors (driven through its iterator's own next) and DiagramRules::cofactor (override "
+                "or trait default) are interpreted on a node whose children carry every tag combination, for every incoming "
+                "tag: the i-th result is the i-th child with the incoming tag applied (the builtin the step rules assume); "
+                "cofactors_node / cofactors_edge hand out cofactor 0, 1[, 2] of the edge's own tag and node, None for terminals.")
+    n = ecof.run(ctx, F, only=("tdd",))
+    ctx.floor("E-TABLE.cof", "interpreted cofactor situations", n, 4)
+    n = ecof.check_accessors(ctx, F)
+    ctx.floor("E-TABLE.cof.access", "accessor situations", n, 3)
     ctx.not_decided = "the value eval assumes for variables missing from its arguments"
